@@ -31,6 +31,25 @@ fn emit(out: &mut Out, input: &[u8], expect: Option<&[JsonValue]>) {
 	if let Err(m) = &items {
 		out.oracle(false, "C17 ndjson: reader panicked", json!({"kind": "ndjson", "what": "panic"}), json!({"case": line, "panic": trunc(m, 200)}));
 	}
+	// two code paths for one answer: the buffered tokio stream must deliver exactly what the iterator delivers, in order
+	if let Ok(got) = &items {
+		let streamed = catch(|| {
+			let rt = tokio::runtime::Builder::new_multi_thread().worker_threads(3).enable_all().build().unwrap();
+			rt.block_on(async {
+				use futures::StreamExt;
+				versatiles_core::json::read_ndjson_stream(Cursor::new(input.to_vec())).map(|r| r.map_err(|_| ())).collect::<Vec<_>>().await
+			})
+		});
+		let same_items = match &streamed {
+			Ok(st) => st.len() == got.len() && st.iter().zip(got).all(|(a, b)| match (a, b) {
+				(Ok(x), Ok(y)) => same(x, y),
+				(Err(()), Err(())) => true,
+				_ => false,
+			}),
+			Err(_) => false,
+		};
+		out.oracle(same_items, "C17 ndjson: read_ndjson_stream and read_ndjson_iter disagree", json!({"kind": "ndjson", "what": "stream-vs-iter"}), json!({"case": line}));
+	}
 	if let (Some(vs), Ok(got)) = (expect, &items) {
 		let ok = got.len() == vs.len() && got.iter().zip(vs).all(|(g, v)| matches!(g, Ok(x) if same(x, v)));
 		out.oracle(ok, "C17 ndjson: values written one per line are not read back unchanged", json!({"kind": "ndjson", "what": "roundtrip"}), json!({"case": line, "expected_items": vs.len(), "got_items": got.len()}));
